@@ -422,6 +422,7 @@ theorem slotOk_deepOk (S : Schema) (f : FieldD) (v : Val) (h : SlotOk S f v) : D
     exact ⟨hl, hd, fun k hk' => key_refl _ k hmf.kty (hk k hk'), deepOkL_msgs S c vs hv⟩
   | tss _ xs _ hv => rw [DeepOk]; exact deepOkL_atoms S xs (fun x hx => timeValOk_atom _ _ (hv x hx))
   | durs _ xs _ hv => rw [DeepOk]; exact deepOkL_atoms S xs (fun x hx => timeValOk_atom _ _ (hv x hx))
+  | wraps _ w xs _ hv => rw [DeepOk]; exact deepOkL_atoms S xs (fun x hx => scalarOk_atom _ _ (hv x hx))
   | mapT _ d ks vs hmf hl hk hv hd =>
     rw [DeepOk]
     exact ⟨hl, hd, fun k hk' => key_refl _ k hmf.kty (hk k hk'), deepOkL_atoms S vs (fun x hx => timeValOk_atom _ _ (hv x hx))⟩
@@ -582,6 +583,7 @@ theorem slotOk_list (S : Schema) (f : FieldD) (xs : List Val) (h : SlotOk S f (.
   | wrap _ _ _ _ hv => simp [scalarOk] at hv
   | tss _ _ ht _ => exact ⟨ht.rep, ht.opt⟩
   | durs _ _ ht _ => exact ⟨ht.rep, ht.opt⟩
+  | wraps _ _ _ hw _ => exact ⟨hw.rep, hw.opt⟩
 
 theorem slotOk_dict (S : Schema) (f : FieldD) (ks vs : List Val) (h : SlotOk S f (.dict ks vs)) :
     f.ty = .map ∧ f.repeated = false ∧ f.optional = false ∧ ks.length = vs.length := by
